@@ -611,7 +611,7 @@ class Unit:
                 for l in strlits:
                     inner = l[1:-1]
                     facts.append('reveal_strlit(%s);' % l)
-                    if '\\' not in inner and all(ord(c_) < 128 for c_ in inner):
+                    if '\\' not in inner:
                         facts.append('assert(%s);' % ' && '.join(['%s@.len() == %d' % (l, len(inner))] + ["%s@[%d] == '%s'" % (l, i_, c_ if c_ != "'" else "\\'") for i_, c_ in enumerate(inner)]))
                 gtext = gtext.replace('@@STRLIT_FACTS@@', '\n'.join(facts))
             occ = g[3] if len(g) > 3 else 1
